@@ -394,6 +394,9 @@ type RWMutex struct {
 	real    sync.RWMutex
 	writer  bool
 	readers int
+	// writers blocked in Lock: like the real RWMutex, new readers wait behind a pending writer (so a recursive read
+	// lock deadlocks as soon as a writer arrives between the two RLock calls)
+	waitingW int
 	relW    []int // clock released by the last writer
 	relR    []int // join of the clocks released by readers since the last writer
 }
@@ -402,7 +405,7 @@ func (m *RWMutex) available(write bool) bool {
 	if write {
 		return !m.writer && m.readers == 0
 	}
-	return !m.writer
+	return !m.writer && m.waitingW == 0
 }
 
 func (m *RWMutex) acquireClock(t *thread, write bool) {
@@ -416,10 +419,18 @@ func (m *RWMutex) acquireClock(t *thread, write bool) {
 
 func (m *RWMutex) wait(e *Exec, t *thread, write bool) {
 	e.dispatch(t, "lock")
+	pending := false
 	for !m.available(write) {
+		if write && !pending {
+			pending = true
+			m.waitingW++
+		}
 		t.state, t.waitM, t.waitW = tBlocked, m, write
 		e.dispatch(t, "blocked")
 		t.state = tRunnable
+	}
+	if pending {
+		m.waitingW--
 	}
 }
 
